@@ -94,7 +94,7 @@ func genC17(t *rapid.T) *C17Case {
 		c.Base = append(c.Base, r)
 	}
 	d := &c.Dir
-	d.Kind = rapid.SampledFrom([]string{"removeById", "removeByTag", "removeByMsg", "updTargetById", "updTargetById", "updTargetByTag", "updActionById", "updActionById", "ctl", "ctl", "ctl"}).Draw(t, "kind")
+	d.Kind = rapid.SampledFrom([]string{"removeById", "removeByTag", "removeByMsg", "updTargetById", "updTargetById", "updTargetByTag", "updActionById", "updActionById", "ctl", "ctl", "ctl", "updTagCtl"}).Draw(t, "kind")
 	genIDs := func() []string {
 		var out []string
 		k := rapid.IntRange(1, 3).Draw(t, "nids")
@@ -145,6 +145,24 @@ func genC17(t *rapid.T) *C17Case {
 	case "updActionById":
 		d.IDs = genIDs()
 		d.Actions = rapid.SampledFrom([][]string{{"deny"}, {"pass"}, {"deny", "status:401"}, {"setvar:tx.upd=+1"}, {"t:none", "t:lowercase"}, {"drop"}, {"status:418"}, {"nolog", "setvar:tx.upd=+2"}}).Draw(t, "uacts")
+	case "updTagCtl":
+		// a tag given to rules by SecRuleUpdateActionById, then a run-time removal by that tag
+		d.IDs = genIDs()
+		d.Tag = "tnew"
+		d.CtlOpt = rapid.SampledFrom([]string{"ruleRemoveByTag", "ruleRemoveByTag", "ruleRemoveTargetByTag"}).Draw(t, "ctlopt2")
+		d.CtlPhase = rapid.IntRange(1, 3).Draw(t, "ctlphase2")
+		d.CtlPos = rapid.IntRange(0, n).Draw(t, "ctlpos2")
+		if rapid.Bool().Draw(t, "ctlcond2") {
+			d.CtlCond = rapid.IntRange(1, 2).Draw(t, "ctlcondk2")
+		}
+		for i, r := range c.Base {
+			if i < d.CtlPos && r.Phase == d.CtlPhase {
+				r.Skip = 0
+			}
+		}
+		if d.CtlOpt == "ruleRemoveTargetByTag" {
+			d.Targets = genTargets(true)[:1]
+		}
 	case "ctl":
 		d.CtlOpt = rapid.SampledFrom([]string{"ruleRemoveById", "ruleRemoveById", "ruleRemoveByTag", "ruleRemoveByMsg", "ruleRemoveTargetById", "ruleRemoveTargetById", "ruleRemoveTargetByTag", "ruleRemoveTargetByMsg"}).Draw(t, "ctlopt")
 		d.CtlPhase = rapid.IntRange(1, 3).Draw(t, "ctlphase")
@@ -251,13 +269,14 @@ func (c *C17Case) configs() (dirConf, rewConf string, ctlFires bool) {
 	}
 	var dirRules, rewRules []string
 	// ---- directive form
+	isCtl := d.Kind == "ctl" || d.Kind == "updTagCtl"
 	for i, r := range c.Base {
-		if d.Kind == "ctl" && d.CtlPos == i {
+		if isCtl && d.CtlPos == i {
 			dirRules = append(dirRules, c.ctlRule().Render())
 		}
 		dirRules = append(dirRules, r.Render())
 	}
-	if d.Kind == "ctl" && d.CtlPos >= len(c.Base) {
+	if isCtl && d.CtlPos >= len(c.Base) {
 		dirRules = append(dirRules, c.ctlRule().Render())
 	}
 	dirConf = pre + strings.Join(dirRules, "")
@@ -274,9 +293,11 @@ func (c *C17Case) configs() (dirConf, rewConf string, ctlFires bool) {
 		dirConf += "SecRuleUpdateTargetByTag " + d.Tag + " \"" + renderTargetList(d.Targets) + "\"\n"
 	case "updActionById":
 		dirConf += "SecRuleUpdateActionById " + strings.Join(d.IDs, " ") + " \"" + strings.Join(d.Actions, ",") + "\"\n"
+	case "updTagCtl":
+		dirConf += "SecRuleUpdateActionById " + strings.Join(d.IDs, " ") + " \"tag:'" + d.Tag + "'\"\n"
 	}
 	// ---- rewritten form
-	if d.Kind == "ctl" {
+	if isCtl {
 		ctlFires = d.CtlCond == 0
 		for _, kv := range c.Req.Query {
 			if d.CtlCond > 0 && kv.K == fmt.Sprintf("c%d", d.CtlCond) && kv.V == "1" {
@@ -285,7 +306,7 @@ func (c *C17Case) configs() (dirConf, rewConf string, ctlFires bool) {
 		}
 	}
 	for i, r := range c.Base {
-		if d.Kind == "ctl" && d.CtlPos == i {
+		if isCtl && d.CtlPos == i {
 			rewRules = append(rewRules, c.ctlRuleInert().Render())
 		}
 		nr := cloneRule(r)
@@ -304,7 +325,10 @@ func (c *C17Case) configs() (dirConf, rewConf string, ctlFires bool) {
 			for k := 0; k < timesSelected(d, r, sel); k++ {
 				applyActionUpdate(nr, d.Actions)
 			}
-		case "ctl":
+		case "ctl", "updTagCtl":
+			if d.Kind == "updTagCtl" && sel {
+				nr.Acts = append(nr.Acts, "tag:'"+d.Tag+"'")
+			}
 			later := r.Phase > d.CtlPhase || (r.Phase == d.CtlPhase && i >= d.CtlPos)
 			if sel && ctlFires && later {
 				if strings.HasPrefix(d.CtlOpt, "ruleRemoveTarget") {
@@ -319,7 +343,7 @@ func (c *C17Case) configs() (dirConf, rewConf string, ctlFires bool) {
 		}
 		rewRules = append(rewRules, nr.Render())
 	}
-	if d.Kind == "ctl" && d.CtlPos >= len(c.Base) {
+	if isCtl && d.CtlPos >= len(c.Base) {
 		rewRules = append(rewRules, c.ctlRuleInert().Render())
 	}
 	rewConf = pre + strings.Join(rewRules, "")
@@ -366,6 +390,8 @@ func (c *C17Case) ctlValue() string {
 	d := c.Dir
 	v := ""
 	switch {
+	case d.Kind == "updTagCtl":
+		v = d.Tag
 	case len(d.IDs) > 0:
 		v = d.IDs[0]
 	case d.Tag != "":
